@@ -113,6 +113,19 @@ PruneKeepsRest(pre, line, post) ==
   /\ \A kd \in Kinds : Ids(pre.kinds[kd].live) \subseteq Ids(post.kinds[kd].live)
   /\ \A kd \in Kinds \ {line.kind} : pre.kinds[kd].snaps \subseteq post.kinds[kd].snaps
 
+(* cleanup_finished forms its batches in the order in which ZooKeeper listed    *)
+(* /finished (line.forder, as the archiver's own get_children returned it);    *)
+(* the other archivers sort by (timestamp, shard, name).  SortedEligible is the *)
+(* sequence of eligible events in the order of the code (finished records are  *)
+(* re-keyed by their listing position: compare its elements by NAME).          *)
+Rekey(kd, line, S) ==
+  IF kd = "finished" /\ line.forder # <<>>
+  THEN {[e EXCEPT !.k = IndexOf(line.forder, e.name)] : e \in S} ELSE S
+SortedEligible(pre, line, kd) ==
+  OrderSeq(kd, Rekey(kd, line, EligibleSet(kd, pre.kinds[kd].live, pre.sched, pre.now, line.expiry)))
+NamesOf(S) == {e.name : e \in S}
+ByName(S, names) == {e \in S : e.name \in names}
+
 (* ---- the model's successor ------------------------------------------------ *)
 FrameOthers(pre, line, post, kds) ==
   /\ \A kd \in kds : /\ post.kinds[kd].live = PreLive(pre, line, kd) \cup Added(line, kd)
@@ -125,7 +138,7 @@ ArchiveExplained(pre, line, post) ==
       P == pre.kinds[kd]
       Q == post.kinds[kd]
       B == line.batch
-      S == OrderSeq(kd, EligibleSet(kd, P.live, pre.sched, pre.now, line.expiry))
+      S == SortedEligible(pre, line, kd)
       W == TotalWrites(S, B)
       nd == NDeleted(line.nw, B)
       ns == NSnaps(line.nw, B)
@@ -134,12 +147,12 @@ ArchiveExplained(pre, line, post) ==
   \/ kd = "server" /\ line.injected   \* re-listing may pick up concurrent events: not predicted
   \/ kd = "finished" /\ line.touched # <<>>   \* a record rewritten in the middle of the call
   \/ /\ IF line.crashed THEN line.nw = line.cut - 1 /\ line.nw < W ELSE line.nw = W
-     /\ Q.live = (P.live \ {S[x] : x \in 1..nd}) \cup Added(line, kd)
+     /\ Q.live = (P.live \ ByName(P.live, {S[x].name : x \in 1..nd})) \cup Added(line, kd)
      /\ P.snaps \subseteq Q.snaps
      /\ Cardinality(new) = ns
      /\ \A s \in new :
           LET j == 1 + Cardinality({u \in new : u.seq < s.seq}) IN
-          /\ s.rows = BatchSet(S, B, j) /\ s.nrows = B /\ s.pathok
+          /\ s.rows = ByName(P.live, NamesOf(BatchSet(S, B, j))) /\ s.nrows = B /\ s.pathok
           /\ s.dl = {e.name : e \in s.rows}
           /\ \A u \in P.snaps : u.seq < s.seq
      /\ FrameOthers(pre, line, post, Kinds \ {kd})
@@ -171,9 +184,13 @@ EnvExplained(pre, line, post) ==
 (*                      `at` writes: live + number of snapshots holding it -    *)
 (*                      hence never 0, 2 inside the upload -> delete window, 1  *)
 (*                      otherwise, +1 per earlier cut that left a copy behind   *)
-(* ext.archive.readLoop 1 <= loop <= n, and loop = 1 unless another event of    *)
-(*                      the same object carries the same timestamp (the loop's  *)
-(*                      de-duplication compares timestamps, then whole events)  *)
+(* ext.archive.readLoop loop <= n; when the loop listed the history directory   *)
+(*                      oldest snapshot first (`ordered`; ZooKeeper guarantees  *)
+(*                      no order and the loop drops what is older than the last *)
+(*                      event handed on): 1 <= loop, and loop = 1 unless        *)
+(*                      another event of the same object carries the same       *)
+(*                      timestamp (the de-duplication compares timestamps, then *)
+(*                      whole events)                                           *)
 ReadClean(line) == /\ \A kd \in Kinds : line.added[kd] = <<>>
                    /\ line.touched = <<>>
 ReadNames(pre, kd) == {e.name : e \in pre.kinds[kd].live \cup RowsOf(pre.kinds[kd])}
@@ -184,9 +201,11 @@ ReadExp(pre, line, r, nm) ==
       islive == \E x \in P.live : x.name = nm
   IN IF line.ev = "Archive" /\ kd = line.kind
      THEN LET B == line.batch
-              S == OrderSeq(kd, EligibleSet(kd, P.live, pre.sched, pre.now, line.expiry))
-              gone == {S[x].name : x \in 1..NDeleted(r.at, B)}
-              new == Cardinality({j \in 1..NSnaps(r.at, B) :
+              S == SortedEligible(pre, line, kd)
+              \* total: a tree that performs more writes than the model's run has
+              \* (r.at beyond TotalWrites) must mismatch, not make the evaluation fail
+              gone == {S[x].name : x \in 1..Min2(NDeleted(r.at, B), Len(S))}
+              new == Cardinality({j \in 1..Min2(NSnaps(r.at, B), NBatches(S, B)) :
                                     \E x \in BatchSet(S, B, j) : x.name = nm})
           IN old + new + (IF islive /\ nm \notin gone THEN 1 ELSE 0)
      ELSE old + (IF islive THEN 1 ELSE 0)
@@ -207,8 +226,8 @@ ReadLoopOk(pre, line) ==
           LET it == r.items[x]
               twin == \E e \in known, f \in known :
                         e.name = it.name /\ f.name # e.name /\ f.inst = e.inst /\ f.ts = e.ts IN
-          /\ it.loop >= 1 /\ it.loop <= it.n
-          /\ (~twin => it.loop = 1)
+          /\ it.loop <= it.n
+          /\ (it.ordered => it.loop >= 1 /\ (~twin => it.loop = 1))
 ReadEx(line) ==
   E("ext.read", line.reads # <<>>)
   \cup E("ext.readTwice", \E y \in DOMAIN line.reads : \E x \in DOMAIN line.reads[y].items :
